@@ -15,9 +15,11 @@ CLAIMED = {
               "schedule, read-budget invariant against an executed "
               "minimal-read reference pipeline",
     text="Seeded exploration of stage pipelines (depth 1-3, fan-out through "
-         "copy/tee/thub, 122 stage families incl. filters with Stream "
-         "parameters, synthesis stages, blockenizers, overlap-add/STFT, mixer, "
-         "resampler, record stream) over simulator-owned sources (finite with "
+         "copy/tee/thub, stages built late on endpoints that already served "
+         "demand, about 140 stage families incl. every operator method, "
+         "filters with Stream parameters, synthesis stages, blockenizers, "
+         "overlap-add/STFT also with iterable windows, mixer, resampler, "
+         "record stream) over simulator-owned sources (finite with "
          "seeded EOF, endless, over-read stall; tagged / silence-first / "
          "signed values); after construction and after every demand step "
          "the reads of every source are bounded by a minimal-read reference "
@@ -32,8 +34,10 @@ CLAIMED = {
     technique="deterministic simulation: seeded method histories and seeded "
               "interleaving of consumption among copies/tee outputs/thub "
               "uses over EOF-faulted sources, step-wise list reference model",
-    text="Seeded histories of Stream methods over a pool of handles sharing "
-         "simulator-owned sources; which handle acts next is a scheduler "
+    text="Seeded histories of Stream methods (and operators / attribute "
+         "access deriving new streams) over a pool of handles sharing "
+         "simulator-owned sources, Stream subclasses, lazy_itertools streams "
+         "and hubs made from raw iterables; which handle acts next is a scheduler "
          "decision; every return value / exception class is compared with a "
          "list model at once.",
     note="Trusted: the list model; documented ownership rule (operands handed "
@@ -48,7 +52,9 @@ CLAIMED = {
     text="Seeded time-varying filters (single, sum, difference, product, "
          "quotient, power, negation, scaling by constant or Stream, filter "
          "+- scalar, reuse through copy() or a shared denominator, variable "
-         "a0, empty numerator with non-zero memory, finite constant streams) "
+         "a0, empty numerator with non-zero memory, finite constant streams, "
+         "periodic and ControlStream coefficients, delays above 32 samples, "
+         "a derived sibling filter sharing hub coefficients) "
          "run on simulator-owned input and coefficient readers; per output "
          "sample the accounting clause (each reader read exactly once; "
          "exactly N reads when only the input ends after N), the end clause "
@@ -77,8 +83,9 @@ CLAIMED = {
               "add()/value assignment with consumption (exact event-list "
               "model), and the same with a consumer thread under the seeded "
               "thread scheduler (linearization-window oracle)",
-    text="Seeded mixer/ControlStream histories with EOF-faulted events and "
-         "late additions checked sample by sample against an exact rational "
+    text="Seeded mixer/ControlStream histories with EOF-faulted events (lists, "
+         "generators, hubs, Stream subclasses, nested mixers) and late "
+         "additions checked sample by sample against an exact rational "
          "event-list model; threaded part checks existence of a "
          "linearization under seeded pre-emption.",
     note="Trusted: the event-list model; half-sample ties accept both "
@@ -88,14 +95,16 @@ CLAIMED = {
     engine="threads",
     technique="deterministic simulation with fault injection: real "
               "AudioIO/AudioThread code on real threads released one at a "
-              "time by a seeded scheduler (lock/event/join/device/line "
-              "yield points), fake PyAudio backend with stall faults; device "
+              "time by a seeded scheduler (lock/event/join/device/line/"
+              "bytecode yield points), fake PyAudio backend with device-stall, "
+              "thread-stall and late-start faults; device "
               "history safety oracle + bounded shutdown liveness",
     text="Seeded search over thread schedules (random walk, sticky, "
-         "run-to-block, PCT, line pre-emption, hot-line window holding), "
-         "control histories, device stalls and late thread starts for 1-3 "
-         "players (lists, generators, endless streams, an input device "
-         "looped to the output) plus record streams; safety over the "
+         "run-to-block, PCT, line and bytecode-instruction pre-emption, "
+         "hot-line window holding), control histories, device stalls, thread "
+         "stalls (also while close() runs) and late thread starts for 1-3 "
+         "players (lists, generators, endless streams, hubs, deques, arrays, "
+         "an input device looped to the output) plus record streams; safety over the "
          "recorded device history of a state-tracking fake PortAudio "
          "(framing decoded with the arguments the device was opened with, "
          "content, order, no write to a stopped/closed stream, promptness "
@@ -103,8 +112,8 @@ CLAIMED = {
          "returning within a step bound once faults stop; deadlocks reported "
          "with every thread's blocking point.",
     note="Trusted: SimLock/SimEvent equivalence to threading.Lock/Event, the "
-         "fake PyAudio call interface, fairness cap. Pre-emption granularity "
-         "is the source line.",
+         "fake PyAudio call interface, fairness cap. Pre-emption granularity: "
+         "source line, or bytecode instruction in part of the runs.",
     ref="4/C17"),
 }
 
